@@ -329,6 +329,22 @@ func c02R3(c *Ctx, rule string) {
 			}
 			return v.F("prepared")
 		})
+	// who is answered "applied" here: only the future of the loop's own index,
+	// inside the loop, when the entry needs no FSM round trip. A future answered
+	// nil anywhere else (e.g. "complete the ones at or below lastApplied") tells
+	// a caller its command was applied although no FSM was ever given it.
+	for _, s := range c.P.CallsIn(fn, engine.Is("(*deferError).respond")) {
+		recv := c.P.D(engine.RecvValue(s.Instr))
+		arg := c.P.Arg(s.Instr, 0)
+		inLoop := engine.Reaches(body, s.Instr.Block()) && engine.Reaches(s.Instr.Block(), hdr.Block())
+		own := strings.HasPrefix(recv, "p2["+idxD+"]#0")
+		c.RequireAt(rb, rule, "processLogs:answers-only-own-index", s.Instr, "processLogs answers nil only the in-flight future of the index it is visiting, and only for an entry that is not handed to the FSM", func(v engine.View) bool {
+			return arg == "nil" && inLoop && own && v.T("haveFuture") && v.F("prepared")
+		})
+		if !inLoop || !own {
+			c.Bad(rule, "processLogs:answer-outside-the-apply-loop", c.P.InstrPos(s.Instr), "every respond in processLogs is the loop's answer for its own index", "respond("+arg+") on "+recv+pick(inLoop, "", " outside the loop"))
+		}
+	}
 	// after a batch was handed over inside the loop, the accumulator restarts
 	// empty (otherwise the same entries would be sent to the FSM again)
 	{
